@@ -40,7 +40,7 @@ from pycdlib import utils
 
 # For mypy annotations
 if False:  # pylint: disable=using-constant-test
-    from typing import Any, BinaryIO, Callable, Deque, Dict, Generator, IO, List, Optional, Tuple, Union  # NOQA pylint: disable=unused-import
+    from typing import Any, BinaryIO, Callable, Deque, Dict, Generator, IO, List, Optional, Set, Tuple, Union  # NOQA pylint: disable=unused-import
 
 # There are a number of specific ways that numerical data is stored in the
 # ISO9660/Ecma-119 standard.  In the text these are reference by the section
@@ -1019,8 +1019,15 @@ class PyCdlib:
         child_links = []
         lastbyte = 0
         dirs = collections.deque([root_dir_record])
+        seen_dir_extents = set()  # type: Set[int]
         while dirs:
             dir_record = dirs.popleft()
+
+            # A directory that is reachable from itself (or reachable twice)
+            # would make this walk loop forever on a damaged ISO.
+            if dir_record.extent_location() in seen_dir_extents:
+                raise pycdlibexception.PyCdlibInvalidISO('Directory records form a cycle')
+            seen_dir_extents.add(dir_record.extent_location())
 
             self._seek_to_extent(dir_record.extent_location())
             length = dir_record.get_data_length()
